@@ -300,7 +300,7 @@ def reclassify(ctx, prop_text):
                 and rp['impl'][0] == 'ok' and rp['model'][0] == 'ok':
             for a, b in zip(rp['impl'][1], rp['model'][1]):
                 if a != b:
-                    if success_of(a) != success_of(b) or (a[0] == 'ok' and b[0] == 'ok' and a[1] != b[1]):
+                    if success_of(a) != success_of(b) or (a[0] == 'ok' and b[0] == 'ok' and a[1] != b[1]) or (a[0] != b[0] and 'ok' in (a[0], b[0])):
                         kind = 'spec'
                         desc = prop_text + f': implementation answered {str(a)[:200]}, the reference answer is {str(b)[:200]}'
                     break
@@ -365,6 +365,19 @@ def gen_keepgoing_case(r, nmut=None):
         muts.append(GT.mutate(r, c, files, written, r.choice(['content-same-size', 'content-other-size', 'delete', 'stray',
                                                                 'file-to-dir', 'stray', 'delete', 'fifo', 'stray-hidden',
                                                                 'dir-to-file', 'manifest-delete', 'dangling-link'])))
+    if r.random() < 0.2:
+        # a second name (directory symlink) for a directory that has a sub-directory, beside it and below a first-level directory:
+        # no loop, every file below is seen under both names
+        t = c.tree
+        firsts = [d for d in c.meta['dirs'] if d and '/' not in d and not d.startswith('.') and t.lookup(d) is not None and t.nodes[t.lookup(d)]['k'] == 'd']
+        A = r.choice(firsts) if firsts else None
+        if A is not None and t.lookup(A + '/pkg2') is None and t.lookup(A + '/pkg2-alias') is None:
+            t.add_dir(A + '/pkg2')
+            t.add_dir(A + '/pkg2/inner')
+            t.add_file(A + '/pkg2/inner/f', b'seen twice\n')
+            t.link(t.lookup(A), r.choice(['pkg2-alias', 'pkg2-alias', 'a-alias']), t.lookup(A + '/pkg2'))
+            c.meta['dirs'] += [A + '/pkg2', A + '/pkg2/inner']
+            muts.append('sibling-alias:%s/pkg2' % A)
     c.meta['mutations'] = muts
     c.meta['order_seed'] = r.randint(0, 9)
     paths = [''] + [d for d in c.meta['dirs'] if d]
@@ -1109,6 +1122,65 @@ def c16(ctx):
               samples=[{'shape_parents': specs[5][0], 'extra_edges': specs[5][1], 'ignore': specs[5][2], 'policy': specs[5][3], 'impl': res[5][1]}],
               dist={'graph_space_total': total, 'loop_graphs_keep_going': loops, 'loop_error_raised': raised,
                     'cross_device_errors': xdev}, exhaustive=(not quick))
+    cli_xdev_several(ctx)
+
+
+def cli_xdev_several(ctx):
+    """one-file-system mode for every path of one command: `gemato verify -x p1 p2 ...` (and update) fails iff one of the single-path
+    runs with -x fails; without -x the foreign objects are verified like any others"""
+    r = ctx.rng('c16cli')
+    n = agree = 0
+    with ET.Scratch() as sc:
+        for _ in range(40 if ctx.tier == 'quick' else 400):
+            t = GT.Tree()
+            lines = []
+            foreign_in = r.choice(['a', 'b', 'c', 'b'])
+            for d in ('a', 'b', 'c'):
+                t.add_dir(d)
+                t.add_file(d + '/f', b'file in ' + d.encode() + b'\n')
+                lines.append(ET.entry_line('DATA', d + '/f', b'file in ' + d.encode() + b'\n', ['SHA1']))
+            di = t.lookup(foreign_in)
+            shape = r.choice(['dir-with-listed-file', 'listed-file', 'manifest-file'])
+            if shape == 'dir-with-listed-file':
+                container = t.new({'k': 'd', 'dev': 2, 'parent': 0, 'ents': []})
+                t.nodes[container]['parent'] = container
+                x = t.mkdir(container, 2)
+                t.link(container, 'xd', x)
+                t.link(x, 'inner', t.mkfile(2, b'on other device'))
+                t.link(di, 'xd', x)
+                lines.append(ET.entry_line('DATA', foreign_in + '/xd/inner', b'on other device', ['SHA1']))
+            elif shape == 'listed-file':
+                t.link(di, 'xf', t.mkfile(2, b'foreign file'))
+                lines.append(ET.entry_line('DATA', foreign_in + '/xf', b'foreign file', ['SHA1']))
+            else:
+                t.link(di, 'xm', t.mkfile(2, b''))
+                lines.append(ET.entry_line('MANIFEST', foreign_in + '/xm', b'', ['SHA1']))
+            t.add_file('Manifest', ('\n'.join(lines) + '\n').encode())
+            order = r.sample(['a', 'b', 'c'], r.choice([2, 3, 3]))
+            cmd = r.choice(['verify', 'verify', 'update'])
+            extra = ['--no-openpgp-verify'] if cmd == 'verify' else ['-H', 'SHA1']
+            b, s = sc.fresh()
+            try:
+                t.realise(b, s)
+                singles = {p: run_cli_collect(['gemato', cmd, '-x'] + extra + [os.path.join(b, p)])[0] for p in order}
+                multi_x, items = run_cli_collect(['gemato', cmd, '-x'] + extra + [os.path.join(b, p) for p in order])
+                multi, _ = run_cli_collect(['gemato', cmd] + extra + [os.path.join(b, p) for p in order])
+            finally:
+                sc.cleanup(b, s)
+            n += 1
+            expect_fail = any(v != 0 for v in singles.values())
+            replay = {'paths': order, 'foreign_object_in': foreign_in, 'shape': shape, 'command': cmd, 'single_runs_with_x': singles, 'several_with_x': multi_x,
+                      'several_without_x': multi, 'log': items}
+            if foreign_in in order and not expect_fail:
+                ctx.violation('spec', f'gemato {cmd} -x {foreign_in} exits 0 although {foreign_in} holds an object on another filesystem ({shape})', replay)
+            elif (multi_x != 0) != expect_fail:
+                ctx.violation('spec', f'gemato {cmd} -x {" ".join(order)} exits {multi_x} but the single-path runs with -x exit {singles}: one-file-system mode '
+                              f'does not hold for every path', replay)
+            elif multi != 0:
+                ctx.violation('spec', f'gemato {cmd} {" ".join(order)} (crossing allowed) exits {multi} on a consistent tree', replay)
+            else:
+                agree += 1
+    ctx.count('cli:xdev-several-paths', n, n, dist={'runs_agreeing': agree})
 
 
 # --------------------------------------------------------------------------- update / save
